@@ -2,7 +2,8 @@
   Model/Load — workflow template processing (C15).
 
   Mirrors  core/workflow/aggregatorrole.go, iteratorrole.go, iteratorrange.go, taskrole.go,
-           callrole.go (ProcessTemplates, expandTemplate, GetRange), roleutils.go
+           callrole.go, includerole.go (ProcessTemplates, expandTemplate, GetRange), load.go
+           (the LoadSubworkflowFunc: fresh root, unmarshal, `setParent(include role)`), roleutils.go
            (MakeDisabledRoleCallback), rolebase.go (IsEnabled), aggregator.go (GetRoles),
            configuration/template/fields.go (Sequence.Execute: stages 0–5, VarStack.consolidated)
            for the expression fragment  literal | {{ var }} | == | != | && | || | ! | true/false.
@@ -27,6 +28,14 @@
                  unprocessed `enabled` text of the iterator's template (iteratorrole.go:IsEnabled).
                  `Cfg.iterByRawText`; the code as it is keeps an iterator iff it still holds
                  a generated role (`len(i.Roles) > 0`).
+    * (no event, a third switch) `Cfg.inclPublishLate` – WHEN an include role writes its iterator
+                 Locals into its Vars. The code does it right after its own template sequence, i.e.
+                 BEFORE `r.aggregatorRole = *subWfRoot` replaces the whole embedded roleBase (Locals,
+                 Defaults, Vars, UserVars) by the loaded root's; the maps written at the include site
+                 stay in the gera hierarchy as the loaded root's parents, so that is where the
+                 iteration variable has to be. `true` = the loop stands after the replacement: it then
+                 ranges over the loaded root's (empty) Locals and publishes nothing. NOT the code
+                 (`codeCfg`, `legacyCfg` have `false`); kept to state what the order is good for.
     * hollow   – an aggregator's "am I empty" test (`len(r.Roles) == 0`, unchanged) counts
                  iterator nodes; with the legacy rule also iterators that expanded to nothing
                  stayed in `Roles`. With the rule of the code as it is an iterator that holds
@@ -257,6 +266,12 @@ inductive Tmpl where
   /-- extra = [func, return, timeout, trigger, await] -/
   | call (h : Hdr) (extra : List Field) (critical : Bool) (next : Tmpl)
   | iter (rng : RangeT) (var : String) (body : Tmpl) (next : Tmpl)
+  /-- include role: header as written at the include SITE, the `include:` expression, and `docs` =
+      the documents of the workflow repository this site can name (a sibling list of `doc`) -/
+  | incl (h : Hdr) (inc : Field) (docs : Tmpl) (next : Tmpl)
+  /-- one workflow document of the repository: file name, root role (header, children). It is a
+      role only as the target of an include (`Ctx.want`); anywhere else it contributes nothing. -/
+  | doc (file : String) (h : Hdr) (kids : Tmpl) (next : Tmpl)
   deriving Repr, DecidableEq, Inhabited
 
 /-- A processed role's own data. -/
@@ -327,6 +342,11 @@ structure Ctx where
   D : Env := []
   V : Env := []
   U : Env := []
+  /-- Only set in the stack an include role hands to the documents of the workflow repository
+      (`Tmpl.doc`) it can name: the file its `include:` expression evaluated to, and its own
+      resolved name (the loaded root keeps the include role's name: `r.Name = name` after the
+      swap). Every stack a role header produces has `none`. -/
+  want : Option (String × String) := none
   deriving Repr, DecidableEq, Inhabited
 
 /-- stages 0 and 1: parent stack + locals -/
@@ -370,6 +390,45 @@ def procHdr (ctx : Ctx) (loc : Env) (h : Hdr) (extra : List Field) : HdrRes :=
                 stack := c'.U ++ c'.V ++ c'.D } c' ex
         | _, _, _, _, _ => .error
 
+/-! ## include roles (includerole.go, load.go) -/
+
+/-- Is there a document called `f` among the documents an include site can name? -/
+def hasDoc (f : String) : Tmpl → Bool
+  | .nil => false
+  | .doc file _ _ next => file == f || hasDoc f next
+  | .agg _ _ next => hasDoc f next
+  | .task _ _ _ next => hasDoc f next
+  | .call _ _ _ next => hasDoc f next
+  | .iter _ _ _ next => hasDoc f next
+  | .incl _ _ _ next => hasDoc f next
+
+/-- `includeRole.ProcessTemplates` up to and including `loadSubworkflow`: the role's own template
+    sequence on the header AS WRITTEN AT THE INCLUDE SITE (the `include:` expression is a stage-4
+    field like the name; constraints / bind / connect of the site are evaluated — an error there
+    fails the load — and then discarded with the composed roleBase), the Locals written to the
+    site's Vars (`pub`; see `Cfg.inclPublishLate`), the sub-workflow looked up (unknown file =
+    error). The resulting stack is the SITE's — the loaded root's three maps wrap the site's
+    (`root.setParent(r)`) — and tells the documents which one is wanted and under which name.
+    `pub = false`: nothing of `loc` is in the site's Vars (`c'.V = loc ++ own vars ++ parent's`). -/
+def inclHdrP (pub : Bool) (ctx : Ctx) (loc : Env) (h : Hdr) (inc : Field) (docs : Tmpl) : HdrRes :=
+  match procHdr ctx loc h [inc] with
+  | .ok i c' ex =>
+    let file := ex.headD ""
+    if hasDoc file docs then
+      .ok i { D := c'.D, V := if pub then c'.V else c'.V.drop loc.length, U := c'.U, want := some (file, i.name) } ex
+    else .error
+  | r => r
+
+/-- `r.aggregatorRole = *subWfRoot; r.parent = parent; r.Name = name;
+    r.aggregatorRole.ProcessTemplates(…)`: the wanted document's root is processed as an
+    aggregator — its own `enabled`, defaults, vars, constraints, channels; Locals empty — whose
+    name field holds the include role's resolved name, against the site's stack. Any other
+    document, and a document outside an include, is not there. -/
+def docHdr (ctx : Ctx) (file : String) (h : Hdr) : HdrRes :=
+  match ctx.want with
+  | none => .disabled
+  | some (f, nm) => if f == file then procHdr ctx [] { h with name := [.text nm] } [] else .disabled
+
 /-! ## results -/
 
 /-- Things the code does that the property does not want (see file header). -/
@@ -402,13 +461,22 @@ structure Cfg where
   /-- `iteratorRole.IsEnabled()` answers with the truthiness of the template's raw `enabled` text
       (else: with "the iterator still holds a generated role") -/
   iterByRawText : Bool
+  /-- an include role writes its Locals into its Vars only AFTER it replaced its composed
+      aggregatorRole by the loaded root (so: never; see the file header). NOT the code. -/
+  inclPublishLate : Bool := false
   deriving Repr, DecidableEq, Inhabited
 
 /-- the code as it is (after `fix:` C15.fix-1 and C15.fix-2) -/
-def codeCfg : Cfg := { maskEnabledError := false, iterByRawText := false }
+def codeCfg : Cfg := { maskEnabledError := false, iterByRawText := false, inclPublishLate := false }
 
 /-- the code as it was -/
-def legacyCfg : Cfg := { maskEnabledError := true, iterByRawText := true }
+def legacyCfg : Cfg := { maskEnabledError := true, iterByRawText := true, inclPublishLate := false }
+
+/-- NOT the code: the code as it is, except that the include role publishes its Locals after the swap -/
+def lateInclCfg : Cfg := { maskEnabledError := false, iterByRawText := false, inclPublishLate := true }
+
+/-- the include header of a configuration -/
+def inclHdr (cfg : Cfg) : Ctx → Env → Hdr → Field → Tmpl → HdrRes := inclHdrP (!cfg.inclPublishLate)
 
 /-- What a role whose `enabled` could not be evaluated contributes: silently nothing (legacy),
     or a failed load. -/
@@ -428,6 +496,7 @@ def rawEnabled : Tmpl → Bool
   | .agg h _ _ => truthy (rawText h.enabled)
   | .task h _ _ _ => truthy (rawText h.enabled)
   | .call h _ _ _ => truthy (rawText h.enabled)
+  | .incl h _ _ _ => truthy (rawText h.enabled)
   | _ => false
 
 /-- A leaf (task/call) after its header. -/
@@ -485,6 +554,22 @@ def proc (cfg : Cfg) (ctx : Ctx) (loc : Env) : Tmpl → Out
       | some vals =>
         iterOut cfg (rawEnabled body)
           (vals.foldr (fun v acc => (proc cfg ctx [(var, v)] body).seq acc) Out.empty)
+    me.seq (proc cfg ctx loc next)
+  | .incl h inc docs next =>
+    let me : Out :=
+      match inclHdr cfg ctx loc h inc docs with
+      | .error => ⟨true, .nil, {}⟩
+      | .masked => maskedOut cfg
+      | .disabled => Out.empty
+      | .ok _ cw _ => proc cfg cw [] docs
+    me.seq (proc cfg ctx loc next)
+  | .doc file h kids next =>
+    let me : Out :=
+      match docHdr ctx file h with
+      | .error => ⟨true, .nil, {}⟩
+      | .masked => maskedOut cfg
+      | .disabled => Out.empty
+      | .ok i c' _ => aggOut i (proc cfg c' [] kids)
     me.seq (proc cfg ctx loc next)
 
 /-- What `Load` hands back. -/
@@ -566,6 +651,24 @@ def procSeq (cfg : Cfg) (ctx : Ctx) (loc : Env) : Tmpl → Except Unit Tree
         match procSeq cfg ctx loc next with
         | .error e => .error e
         | .ok r => .ok ((if iterKeep cfg (rawEnabled body) kf then Tree.iter kf .nil else .nil) ++ r)
+  | .incl h inc docs next =>
+    match inclHdr cfg ctx loc h inc docs with
+    | .error => .error ()
+    | .masked => if cfg.maskEnabledError then procSeq cfg ctx loc next else .error ()
+    | .disabled => procSeq cfg ctx loc next
+    | .ok _ cw _ => seqCat (procSeq cfg cw [] docs) (procSeq cfg ctx loc next)
+  | .doc file h kids next =>
+    match docHdr ctx file h with
+    | .error => .error ()
+    | .masked => if cfg.maskEnabledError then procSeq cfg ctx loc next else .error ()
+    | .disabled => procSeq cfg ctx loc next
+    | .ok i c' _ =>
+      match procSeq cfg c' [] kids with
+      | .error e => .error e
+      | .ok kf =>
+        match procSeq cfg ctx loc next with
+        | .error e => .error e
+        | .ok r => .ok (aggTree i kf ++ r)
 
 def loadSeq (cfg : Cfg) (t : Tmpl) : Loaded :=
   match procSeq cfg {} [] t with
@@ -586,6 +689,8 @@ def take : Nat → Tmpl → Tmpl
   | n + 1, .task h x c nx => .task h x c (take n nx)
   | n + 1, .call h x c nx => .call h x c (take n nx)
   | n + 1, .iter r v b nx => .iter r v b (take n nx)
+  | n + 1, .incl h i d nx => .incl h i d (take n nx)
+  | n + 1, .doc f h k nx => .doc f h k (take n nx)
 
 def drop : Nat → Tmpl → Tmpl
   | 0, t => t
@@ -594,6 +699,8 @@ def drop : Nat → Tmpl → Tmpl
   | n + 1, .task _ _ _ nx => drop n nx
   | n + 1, .call _ _ _ nx => drop n nx
   | n + 1, .iter _ _ _ nx => drop n nx
+  | n + 1, .incl _ _ _ nx => drop n nx
+  | n + 1, .doc _ _ _ nx => drop n nx
 
 end Tmpl
 
@@ -634,6 +741,22 @@ def fire (cfg : Cfg) (ctx : Ctx) (loc : Env) (next : PT) : Tmpl → PT
     match evalRange ctx.lookRange rng with
     | none => .leaf ⟨true, .nil, {}⟩ rest
     | some vals => .iterW (rawEnabled body) (expandPend ctx var body vals) rest
+  | .incl h inc docs nx =>
+    -- the include role's own sequence, the lookup and the swap; the loaded root's header is the
+    -- next step (the same goroutine in the code: a finer interleaving than the code has)
+    let rest := PT.pend ctx loc nx next
+    match inclHdr cfg ctx loc h inc docs with
+    | .error => .leaf ⟨true, .nil, {}⟩ rest
+    | .masked => .leaf (maskedOut cfg) rest
+    | .disabled => rest
+    | .ok _ cw _ => .pend cw [] docs rest
+  | .doc file h kids nx =>
+    let rest := PT.pend ctx loc nx next
+    match docHdr ctx file h with
+    | .error => .leaf ⟨true, .nil, {}⟩ rest
+    | .masked => .leaf (maskedOut cfg) rest
+    | .disabled => rest
+    | .ok i c' _ => .aggW i (.pend c' [] kids .nil) rest
 
 /-- Where in the partial tree a step happens. -/
 inductive Dir where
